@@ -392,10 +392,11 @@ def explore(ck):
                 ck.cap("formatter lattice timed out")
                 continue
             acc.bulk("fmt/lattice-%d/%s" % (npat, fpenv), res["checked"], res["nontrivial"],
-                     "fmt %s bad=%d maxlen=%d" % (fpenv, min(res["bad"], 1), res["maxlen"]),
+                     "fmt %s bad=%d" % (fpenv, min(res["bad"], 1)),
                      {"domain": "2 signs x 2047 exponent fields x %d mantissa patterns + specials, %s"
                                 % (npat, ENV_TEXT[fpenv]),
                       "values": res["samples"][:12]}, "fmt-lattice")
+            ck.extra["pdtoa_longest_text"] = max(ck.extra.get("pdtoa_longest_text", 0), res["maxlen"])
             report_fmt(ck, acc, exe, res, fpenv)
             completed.append("formatter lattice %d patterns (%s)" % (npat, fpenv))
 
@@ -451,7 +452,7 @@ def explore(ck):
                 ck.cap("float32 sweep chunk %d timed out" % n)
                 break
             acc.bulk("fmt/f32-%08x" % lo, res["checked"], res["nontrivial"],
-                     "fmt %s bad=%d maxlen=%d" % (tool_env, min(res["bad"], 1), res["maxlen"]),
+                     "fmt %s bad=%d" % (tool_env, min(res["bad"], 1)),
                      {"domain": "float32 bit patterns [%#x, %#x) widened to double, %s"
                                 % (lo, lo + step, ENV_TEXT[tool_env]),
                       "values": res["samples"][:6]}, "fmt-f32")
